@@ -63,9 +63,13 @@ func genC06(t *rapid.T) *c06Scenario {
 		Cycles:     rapid.SampledFrom([]int{1, 1, 1, 2}).Draw(t, "cycles"),
 	}
 	if rapid.IntRange(0, 5).Draw(t, "negative") == 0 {
-		sc.Negative = rapid.SampledFrom([]string{"noserver", "dialerror", "cancelled", "close_unconnected", "tlsfail"}).Draw(t, "negative_kind")
+		sc.Negative = rapid.SampledFrom([]string{"noserver", "dialerror", "cancelled", "close_unconnected", "tlsfail", "cancel_in_dial"}).Draw(t, "negative_kind")
 		if sc.Negative == "cancelled" {
 			sc.UseCtx, sc.CtxDialer = true, true
+		}
+		if sc.Negative == "cancel_in_dial" {
+			// the context is cancelled while a dialer that knows nothing of contexts is at work
+			sc.UseCtx, sc.CtxDialer = true, false
 		}
 		return sc
 	}
@@ -228,6 +232,31 @@ func runC06(sc *c06Scenario) *Violation {
 			if r, d := cnt.register.Load(), cnt.disconnected.Load(); r != 1 || d != 0 {
 				return fail("after a failed TLS attempt and a successful plain Connect: REGISTER=%d DISCONNECTED=%d", r, d)
 			}
+		}
+		return nil
+	case "cancel_in_dial":
+		// Either outcome is fine - the Connect fails and nothing at all happens, or it succeeds and the
+		// connection (whose context is done) is ended at once in the regular way - but not a mixture.
+		ctx, cancel := context.WithCancel(context.Background())
+		defer cancel()
+		tc.S.Prepare(func(c *ircsim.Conn) { cancel() })
+		err := c06Connect(tc, sc, ctx)
+		tc.S.Prepare(nil)
+		if err != nil {
+			time.Sleep(2 * time.Millisecond)
+			waitCond(stallTimeout(), func() bool { n, _, _ := connGoroutines(tc.C); return n == 0 })
+			if r, d := cnt.register.Load(), cnt.disconnected.Load(); r != 0 || d != 0 || tc.C.Connected() {
+				return fail("Connect reported failure (%v: context cancelled during the dial) yet fired events: REGISTER=%d DISCONNECTED=%d Connected()=%v", err, r, d, tc.C.Connected())
+			}
+			return nil
+		}
+		if !waitCond(stallTimeout(), func() bool { return cnt.disconnected.Load() >= 1 && !tc.C.Connected() }) {
+			return fail("Connect succeeded with a context that was cancelled during the dial, but the connection was never ended (DISCONNECTED=%d)", cnt.disconnected.Load())
+		}
+		waitCond(stallTimeout(), func() bool { n, _, _ := connGoroutines(tc.C); return n == 0 })
+		time.Sleep(2 * time.Millisecond)
+		if r, d := cnt.register.Load(), cnt.disconnected.Load(); r != 1 || d != 1 {
+			return fail("successful Connect whose context was cancelled during the dial: REGISTER=%d DISCONNECTED=%d, want 1 and 1", r, d)
 		}
 		return nil
 	case "close_unconnected":
